@@ -259,3 +259,209 @@ def translate_binom_table(src, prefix='c_'):
         raise Unsupported('unrecognised statements in initialize_binom: %r' % rest.strip()[:60])
     rows = ';\n  '.join('(%s, %s, %s)' % (n, k, v) for n, k, v in ents)
     return 'Definition %sbinom_table : list (Z * Z * Z) := [\n  %s].\n' % (prefix, rows)
+
+
+# ---------------------------------------------------------------------------------------------------
+# straight-line functions -> the deep embedding of coq/theories/CExpr.v (syntax only: typed literals,
+# identifiers resolved to parameters / locals; what the code MEANS is decided by CExpr.ceval)
+ATOK = re.compile(r'\s*(?:(\d+)(ull|ULL|ul|UL|llu|LLU|u|U|ll|LL|l|L)?|([A-Za-z_]\w*)|(<<=|>>=|<<|>>|&=|\|=|\^=|\+=|-=|==|!=|<=|>=|&&|\|\||[-+*/%&|^~()=,;<>?:]))')
+APREC = {'|': 1, '^': 2, '&': 3, '<': 4, '>': 4, '<<': 5, '>>': 5, '+': 6, '-': 6}
+AOPS = {'&': 'OAnd', '|': 'OOr', '^': 'OXor', '+': 'OAdd', '-': 'OSub', '<<': 'OShl', '>>': 'OShr'}
+CTYPES = {'uint64_t': 'TU64', 'unsigned long': 'TU64', 'unsigned long long': 'TU64', 'size_t': 'TU64',
+          'uint32_t': 'TU32', 'unsigned': 'TU32', 'unsigned int': 'TU32', 'int': 'TI32', 'int32_t': 'TI32'}
+
+
+def _atokenize(s):
+    pos, out = 0, []
+    s = s.strip()
+    while pos < len(s):
+        m = ATOK.match(s, pos)
+        if not m or m.end() == pos:
+            raise Unsupported('token at %r' % s[pos:pos + 20])
+        pos = m.end()
+        if m.group(1) is not None:
+            suf = (m.group(2) or '').lower()
+            ty = 'TU64' if suf in ('ull', 'llu', 'ul') else ('TU32' if suf == 'u' else ('TI32' if suf == '' else None))
+            if ty is None:
+                raise Unsupported('literal suffix %s' % suf)
+            out.append(('num', (ty, int(m.group(1)))))
+        elif m.group(3) is not None:
+            out.append(('id', m.group(3)))
+        else:
+            out.append(('op', m.group(4)))
+    return out
+
+
+class AstParser:
+    """expression -> (Coq text of a cex, depends_on_string).  The string parameter may only flow through
+    '&' with string-free operands, '>>' by a string-free count, and into the popcount: everything else is
+    outside the fragment the abstract evaluator of CExpr.v is proved for (=> Unsupported => fallback)."""
+
+    def __init__(self, toks, env):
+        self.t, self.i, self.env = toks, 0, env
+
+    def peek(self):
+        return self.t[self.i] if self.i < len(self.t) else ('eof', None)
+
+    def eat(self, kind, val=None):
+        tk = self.peek()
+        if tk[0] != kind or (val is not None and tk[1] != val):
+            raise Unsupported('expected %s %s got %s' % (kind, val, tk))
+        self.i += 1
+        return tk
+
+    def ternary(self):
+        c, cs = self.binary(0)
+        if self.peek() == ('op', '?'):
+            self.i += 1
+            a, as_ = self.ternary()
+            self.eat('op', ':')
+            b, bs = self.ternary()
+            if cs or as_ or bs:
+                raise Unsupported('conditional on the string: outside the abstract fragment')
+            return '(XIf %s %s %s)' % (c, a, b), False
+        return c, cs
+
+    def binary(self, minp):
+        lhs, ls = self.unary()
+        while True:
+            tk = self.peek()
+            if tk[0] == 'op' and tk[1] in APREC and APREC[tk[1]] >= minp:
+                op = tk[1]
+                self.i += 1
+                rhs, rs = self.binary(APREC[op] + 1)
+                if op == '<':
+                    e = '(XB OLt %s %s)' % (lhs, rhs)
+                elif op == '>':
+                    e = '(XB OLt %s %s)' % (rhs, lhs)
+                else:
+                    e = '(XB %s %s %s)' % (AOPS[op], lhs, rhs)
+                dep = ls or rs
+                if dep:
+                    ok = (op == '&' and not (ls and rs)) or (op == '>>' and ls and not rs)
+                    if not ok:
+                        raise Unsupported("string under '%s': outside the abstract fragment" % op)
+                lhs, ls = e, dep
+            else:
+                return lhs, ls
+
+    def unary(self):
+        tk = self.peek()
+        if tk == ('op', '~'):
+            self.i += 1
+            e, d = self.unary()
+            if d:
+                raise Unsupported("string under '~': outside the abstract fragment")
+            return '(XNot %s)' % e, False
+        if tk == ('op', '-'):
+            self.i += 1
+            e, d = self.unary()
+            if d:
+                raise Unsupported("string under unary '-': outside the abstract fragment")
+            return '(XB OSub (XC TI32 0) %s)' % e, False
+        if tk == ('op', '('):
+            self.i += 1
+            e = self.ternary()
+            self.eat('op', ')')
+            return e
+        if tk[0] == 'num':
+            self.i += 1
+            return '(XC %s %d)' % tk[1], False
+        if tk[0] == 'id':
+            self.i += 1
+            if tk[1] not in self.env:
+                raise Unsupported('identifier %s' % tk[1])
+            e = self.env[tk[1]]
+            return e, e == 'XS'
+        raise Unsupported('unexpected %s' % (tk,))
+
+
+def _ast_expr(text, env):
+    p = AstParser(_atokenize(text), env)
+    e = p.ternary()
+    if p.i != len(p.t):
+        raise Unsupported('trailing tokens in %r' % text[:40])
+    return e
+
+
+def _strip_c(body):
+    body = re.sub(r'/\*.*?\*/', '', body, flags=re.S)
+    body = re.sub(r'//[^\n]*', '', body)
+    # gcc is the compiler of this build: take the __GNUC__ branch
+    body = re.sub(r'#ifdef\s+__GNUC__\s*\n(.*?)#else.*?#endif', r'\1', body, flags=re.S)
+    body = re.sub(r'#ifdef\s+__GNUC__\s*\n(.*?)#endif', r'\1', body, flags=re.S)
+    if '#' in body:
+        raise Unsupported('preprocessor directive in the body')
+    return body
+
+
+def translate_ast_function(src, name, prefix='c_ast_'):
+    """inline int f(uint64_t s, const int i [, const int j]) { straight-line code; return popcount(...); }"""
+    m = re.search(r'\b%s\s*\(([^)]*)\)\s*\{' % re.escape(name), src)
+    if not m:
+        raise Unsupported('function not found')
+    plist = [re.sub(r'\s+', ' ', p.strip()) for p in m.group(1).split(',') if p.strip()]
+    _, body = _func_body(src, name)
+    body = _strip_c(body)
+    env = {}
+    nint = 0
+    for k, p in enumerate(plist):
+        words = [w for w in p.replace('*', ' * ').split() if w != 'const']
+        pname, pty = words[-1], ' '.join(words[:-1])
+        if '*' in words:
+            raise Unsupported('pointer parameter')
+        if k == 0:
+            if CTYPES.get(pty) != 'TU64':
+                raise Unsupported('first parameter is not a 64-bit string')
+            env[pname] = 'XS'
+            sname = pname
+        else:
+            if CTYPES.get(pty) != 'TI32':
+                raise Unsupported('parameter type %s' % pty)
+            env[pname] = '(XA %d)' % nint
+            nint += 1
+    stmts = [s.strip() for s in body.split(';') if s.strip()]
+    out, nloc, ret = [], 0, None
+    for st in stmts:
+        if ret is not None:
+            raise Unsupported('statement after return')
+        mm = re.match(r'^return\s+(\w+)\s*\((.*)\)$', st, re.S)
+        if mm:
+            fn = mm.group(1)
+            e, _dep = _ast_expr(mm.group(2), env)
+            if fn in ('count_bits', '__builtin_popcountll', '__builtin_popcountl'):
+                ret = '(RPop64 %s)' % e
+            elif fn == '__builtin_popcount':
+                ret = '(RPop32 %s)' % e
+            else:
+                raise Unsupported('return through %s' % fn)
+            continue
+        mm = re.match(r'^(?:const\s+)?((?:unsigned\s+)?(?:long\s+long|long|int|uint64_t|uint32_t|int32_t|size_t|unsigned))\s+(\w+)\s*=\s*(.*)$', st, re.S)
+        if mm:
+            ty = CTYPES.get(re.sub(r'\s+', ' ', mm.group(1)))
+            if ty is None:
+                raise Unsupported('type %s' % mm.group(1))
+            e, dep = _ast_expr(mm.group(3), env)
+            if dep:
+                raise Unsupported('local variable depends on the string: outside the abstract fragment')
+            out.append('SLet %s %s' % (ty, e))
+            env[mm.group(2)] = '(XL %d)' % nloc
+            nloc += 1
+            continue
+        mm = re.match(r'^(\w+)\s*(=|>>=|&=)\s*(.*)$', st, re.S)
+        if mm and mm.group(1) == sname:
+            e, dep = _ast_expr(mm.group(3), env)
+            op = mm.group(2)
+            if op == '=':
+                if not dep:
+                    raise Unsupported('string overwritten by a constant')
+                out.append('SSet %s' % e)
+            else:
+                if dep:
+                    raise Unsupported('string on both sides of %s: outside the abstract fragment' % op)
+                out.append('SSet (XB %s XS %s)' % ({'>>=': 'OShr', '&=': 'OAnd'}[op], e))
+            continue
+        raise Unsupported('statement %r' % st[:60])
+    if ret is None:
+        raise Unsupported('no return')
+    return 'Definition %s%s : cfun := mkcfun [%s] %s.\n' % (prefix, name, '; '.join(out), ret), nint
